@@ -128,16 +128,16 @@ func runUpsidedown(c *core.Ctx, name, kv string, path string, seed int64, nb int
 					}
 					rec.Emit("ReadEnd", map[string]any{"c": cl, "docs": docs})
 				} else {
+					rid++
+					if rid > 390 {
+						rid = 201
+					}
+					rec.Emit("ReaderOpenBegin", map[string]any{"r": rid})
 					rd, err := adv.Reader()
 					if err != nil {
 						fail(err)
 						return
 					}
-					rid++
-					if rid > 390 {
-						rid = 201
-					}
-					rec.Emit("ReaderOpen", map[string]any{"r": rid})
 					for i := 0; i < 2; i++ {
 						docs, count, seq, err := sx.ReaderContent(rd)
 						if err != nil {
